@@ -15,7 +15,7 @@ DECIDES = ("Decided: the decision table of check_oracle extracted from its contr
            "the specification F or C or (O and E) or (not O and not E) on all 16 rows; the message stored on each "
            "reporting path; copytree/rmtree pairing per pid (saved exactly for compiler-related faults, removed for "
            "the others, at most one creation of a destination per pid); counter arithmetic of update_stats / "
-           "save_stats / _run; the oracle map built by gen_program.")
+           "save_stats / _run; the oracle map built by gen_program. Also: the compiler's output is analysed on every call (verdicts are never assumed from the exit status).")
 NOT_DECIDED = "file-system outcomes under I/O failures; worker-pool scheduling; what the compilers print."
 
 H = "hephaestus"
